@@ -95,7 +95,7 @@ def run(run, binfo):
                '"" or @', "'' and @", 'not not ""', '"" and ""', 'not "x"', "@ or 'x'", 'not ("")', '("") or @',
                # look-alikes of the constants and keywords are ordinary words (no colon: deny)
                '\uff20', '\ufe6b', '\uff01', 'not \uff01', '\uff20 or role:nobody', '\uff08@\uff09', '\uff21\uff2e\uff24',
-               '@\u200b', '\u200b@', '@\ufeff', '\uff52\uff4f\uff4c\uff45:admin', '@ \uff4f\uff52 @']
+               '{[]}:x', '{{}}:x', '{[1]}:%(a)s', '{None,[0]}:x', 'not {[]}:x', '@ or {{}}:x', '@\u200b', '\u200b@', '@\ufeff', '\uff52\uff4f\uff4c\uff45:admin', '@ \uff4f\uff52 @']
     texts += singles
     # corruptions of valid rules
     ncorr = 1500 if tier == 'quick' else 30000
